@@ -101,10 +101,26 @@ def _worker_chunk(args):
                                    "isig": res["isig"]})
         for v in res["violations"]:
             if len(agg["violations"]) < 40:
-                agg["violations"].append({"run_index": idx, "run_seed": run_seed,
-                                          "scenario": sc, **v})
+                agg["violations"].append(_plain({"run_index": idx, "run_seed": run_seed,
+                                                 "scenario": sc, **v}))
     faulthandler.cancel_dump_traceback_later()
     return agg
+
+
+def _plain(obj):
+    """Plain JSON types only: objects of the code under test (str subclasses with odd constructors,
+    Markup, ...) must never travel between processes inside a result."""
+    def conv(o):
+        if o is None or isinstance(o, (bool, int, float)):
+            return o
+        if isinstance(o, str):
+            return str.__str__(o) if type(o) is not str else o
+        if isinstance(o, dict):
+            return {(k if type(k) in (str, int) else repr(k)): conv(v) for k, v in o.items()}
+        if isinstance(o, (list, tuple)):
+            return [conv(x) for x in o]
+        return repr(o)
+    return conv(obj)
 
 
 def _fails_with(chk, sc, sig):
@@ -141,8 +157,8 @@ def _worker_minimise(args):
     if not hit:  # flaky under re-run: report unminimised, flagged
         return {"scenario": sc, "confirmed": False, "tried": tried}
     v, res = hit
-    return {"scenario": cur, "confirmed": True, "tried": tried, "violation": v,
-            "digest": res["digest"]}
+    return _plain({"scenario": cur, "confirmed": True, "tried": tried, "violation": v,
+                   "digest": res["digest"]})
 
 
 # ---------------------------------------------------------------------------
